@@ -12,23 +12,33 @@ NA = {
     "C18": "pure function of its input: acceptance or rejection is decided from the specification alone in constructors; no schedule, history or fault can change it (DESIGN section 6, C18)",
 }
 
+REPL = "deterministic simulation: N lock-step compiler replicas (one CPython node per interpreter hash seed = the schedule of set/dict/graph iteration), seeded %s workload, "
+EXPL = "seeded exploration of (specification x hash-seed schedule)%s; every unit exactly replayable from its replay file in fresh interpreters with the recorded PYTHONHASHSEED; a clean batch is evidence, not proof"
+BASE = "trusted base: reference runtime model/rt.py (stub for fibertree, validated against the authors' golden programs at setup), dense model model/dense.py, CPython; hash seeds are sampled (8 quick / 32 thorough)"
+
 # id -> (technique, level text, level note, design ref, quick timeout s, thorough timeout s)
 CHECKS = {
-    "C02": ("deterministic simulation: N lock-step compiler replicas differing only in interpreter hash seed (the schedule of set/graph iteration), seeded class-S workload, every emitted text executed on a reference runtime and compared with a dense Einsum model",
-            "seeded exploration of (specification x hash-seed schedule); each unit exactly replayable from its replay file in a fresh interpreter with the recorded PYTHONHASHSEED; a clean batch is evidence, not proof",
-            "trusted base: reference runtime model/rt.py (stub for fibertree), dense model model/dense.py, CPython; hash seeds are sampled (8 quick / 32 thorough)",
-            "6 (C02)", 900, 3600),
-    "C03": ("deterministic simulation: lock-step compiler replicas differing only in interpreter hash seed, seeded class-O workload (occupancy partitioning, flattening), every emitted text executed on a reference runtime and compared with a dense Einsum model",
-            "seeded exploration of (specification x hash-seed schedule); replayable units; evidence, not proof",
-            "trusted base: reference runtime (splitEqual / splitNonUniform / flattenRanks / getPayload semantics of DESIGN 4.2), dense model, CPython; sampled hash seeds",
-            "6 (C03)", 900, 3600),
-    "C04": ("deterministic simulation: lock-step compiler replicas per hash seed, seeded class-A workload (affine accesses, partitioned index-math ranks), reference runtime vs dense model plus extent bound; known findings attributed only by counterfactual re-execution of the emitted text",
-            "seeded exploration of (specification x hash-seed schedule); replayable units; known findings K1-K3 printed as KNOWN-FINDING with fixed witnesses; evidence, not proof",
-            "trusted base: reference runtime (project/prune/iterRangeShapeRef semantics), dense model; single-text specs run as baseline and are reported separately in evidence",
-            "6 (C04)", 900, 3600),
+    "C02": (REPL % "class-S (shape partitioning)" + "every emitted text executed on a reference runtime and compared with a dense Einsum model",
+            EXPL % "", BASE, "6 (C02)", 900, 3600),
+    "C03": (REPL % "class-O (occupancy partitioning, flattening)" + "every emitted text executed on a reference runtime and compared with a dense Einsum model",
+            EXPL % "", BASE, "6 (C03)", 900, 3600),
+    "C04": (REPL % "class-A (affine accesses, partitioned index-math ranks)" + "reference runtime vs dense model plus extent bound; known findings attributed only by counterfactual re-execution of the emitted text",
+            EXPL % "; known findings K1-K3 reported as KNOWN-FINDING through fixed witnesses", BASE + "; single-text specs run as baseline and are reported separately in evidence", "6 (C04)", 900, 3600),
+    "C05": ("deterministic simulation of compilation histories: every subsequence of a seeded cascade is compiled on every hash-seed node and checked against a memoryless-compiler reference model (text of S+[E] = text(S) ++ shifted stand-alone text of E); full program executed against chained dense evaluation",
+            EXPL % " and of (history of Einsums translated earlier)", BASE + "; temporaries numbered by one monotone counter", "6 (C05)", 900, 3600),
+    "C06": (REPL % "mixed-class (S/O/A/K/T)" + "every distinct text reached under any seed analysed by a definite-assignment pass against a spec-derived free-name set, and executed",
+            EXPL % "", "trusted base: closedness analyser model/closed.py and its allowed-name rules (DESIGN 4.3); reference runtime for the run-time NameError cross-check", "6 (C06)", 900, 3600),
+    "C07": (REPL % "mixed-class (S/O/A/K/P)" + "post-run audit of the namespace left by the emitted program on the reference runtime (names vs rank ids, result binding, input snapshots)",
+            EXPL % "", BASE, "6 (C07)", 900, 3600),
+    "C08": (REPL % "partitioned mixed-class" + "replica-agreement invariants: same-process recompile identical, every text closed, identical tensors under common names on identical inputs, same accept/reject on every seed",
+            EXPL % "; distinct texts per spec reported as the measure of interleavings reached", BASE, "6 (C08)", 900, 3600),
+    "C16": (REPL % "class-T (spacetime)" + "recording canvas stand-in; history check of createCanvas/addActivity/displayCanvas events against executed updates, point arities and stamp uniqueness",
+            EXPL % "", BASE + "; canvas is a recording stand-in", "6 (C16)", 900, 3600),
+    "C19": (REPL % "omitted-mapping" + "per seed, the spec as written and variants with the omitted section written out as the independently computed canonical default must compile to byte-identical text",
+            EXPL % "", "trusted base: the harness's own computation of the canonical default from the YAML (gen/classes.py effective_loop_order)", "6 (C19)", 900, 3600),
 }
 
-PLANNED = ["C05", "C06", "C07", "C08", "C10", "C11", "C12", "C13", "C14", "C15", "C16", "C19"]
+PLANNED = ["C10", "C11", "C12", "C13", "C14", "C15"]
 
 
 def main():
